@@ -37,13 +37,13 @@ def plan(prop, tier):
                          "overwriting frames handed out; whole-state projection compared after every call" + "; plus free-form histories (template T_free: every operation allowed at every position, 300 behaviours per family from tlc -simulate with the invariants checked along them, depth 12) chosen by feature cover",
                     extra=[])
     if prop == "C05":
-        return dict(scen=[("obs", fam)], per=(12 if q else 30),
+        return dict(scen=[("obs", fam + [("hourly", "mincluster")])], per=(12 if q else 30),
                     rule="histories of three predicts over 15 (weather, observed-variant) reports - variants {orig, x3, shuffled, 30% NaN, zeros, all NaN, absent} of a year, a part-year and a weather feed with gaps - in TLC-enumerated orders, chosen by feature cover; "
                          "prediction hashes taken on the rows every variant produces",
                     extra=["compared on probe rows (those not blanked in the 30%-NaN variant), which every variant predicts"])
     if prop == "C03":
         # `inter`: a model object fitted again on another meter after it was used - with the fresh-object reference histories
-        return dict(scen=[("warm", fam if not q else fam[:3]), ("inter", [f for f in fam if f[0] in ("daily", "billing")][:2] if q else fam)], per=(4 if q else 12),
+        return dict(scen=[("warm", (fam if not q else fam[:3]) + [("hourly", "fewclusters")]), ("inter", [f for f in fam if f[0] in ("daily", "billing")][:2] if q else fam)], per=(4 if q else 12),
                     rule="in-process histories with unrelated prior use (rng, settings, other fits) plus multi-process schedules (see schedules)",
                     extra=["OS-level timing interleavings of independent processes are not controlled"])
     raise KeyError(prop)
